@@ -226,21 +226,17 @@ def make_data(rng, api):
     k = int(rng.integers(2, 5))
     names = gen.pick(rng, [["a", "b", "c", "d"], [3, 1, 2, 0], ["10", "9", "z", "1"]])
     gi = gen.skewed_labels(rng, n, k).tolist()
+    if len(set(gi)) < 2:
+        gi[0] = (gi[0] + 1) % k
     y = rng.integers(0, 2, size=n).tolist()
-    for a in range(k):  # both labels in every occurring group (ThresholdOptimizer precondition)
+    for a in sorted(set(gi)):  # both labels in every occurring group (ThresholdOptimizer precondition) - done LAST
         labs = {y[i] for i in range(len(y)) if gi[i] == a}
-        if labs:
-            for lab in (0, 1):
-                if lab not in labs:
-                    gi.append(a)
-                    y.append(lab)
+        for lab in (0, 1):
+            if lab not in labs:
+                gi.append(a)
+                y.append(lab)
     n = len(y)
     g = [names[i] for i in gi]
-    if len(set(g)) < 2:
-        g[0] = names[(gi[0] + 1) % 4]
-        g.append(g[0])
-        y.append(1 - y[0])
-        n = len(y)
     d = {"n": n, "y": y, "g": g, "p": rng.integers(0, 2, size=n).tolist(), "w": gen.positive_weights(rng, n, "real").round(3).tolist(),
          "c": ([["u", "v"][i] for i in rng.integers(0, 2, size=n)] if (api in ("metricframe", "moments", "eg", "grid") and rng.random() < 0.5) else None),
          "X": np.column_stack([rng.integers(0, 4, size=n).astype(float), rng.normal(size=n).round(3)]), "h": rng.random(n).round(3),
